@@ -74,6 +74,14 @@ CHECKS = {
             'model, so an operand modified in place is seen on the very next step.',
             'Trusted: rv/models/maparray.py (F&O 3.1 section 17); order of map:keys/for-each results compared as bags; array:sort and collations left to C16.',
             'DESIGN.md section 4 (C15)'),
+    'C17': ('exploration',
+            'differential runtime monitor: round trips through the real serializers/parsers checked against Python json and an independent XDM deep-equal',
+            'Generated JSON-representable XDM values are serialised and parsed back (deep-equal, value model, operand unchanged) and the '
+            'text is read by Python json; generated JSON texts in many spellings go through json-to-xml/xml-to-json (both escape '
+            'settings) and are compared by meaning; generated element/document nodes (ElementTree and lxml) go through '
+            'serialize/parse-xml and are compared by fn:deep-equal and by an independent structural comparison.',
+            'Trusted: rv/models/jsonmodel.py, CPython json, libxml2 reading of the serialised XML; numbers compared as nearest doubles.',
+            'DESIGN.md section 4 (C17)'),
 }
 
 PENDING_REASON = 'check not built yet in this session (runtime-monitoring design exists in DESIGN.md section 4); not claimed until its monitor runs clean'
